@@ -315,7 +315,10 @@ class Program:
             x["_u"] = u
             k = x.get("kind", "")
             if k.endswith("Decl") and "id" in x:
-                by_id[x["id"]] = x
+                # a lambda's body is dumped twice (directly and under the closure type's operator());
+                # the directly attached copy is visited first and must win
+                if x["id"] not in by_id:
+                    by_id[x["id"]] = x
                 if "_q" not in x:
                     x["_q"] = x.get("name", "")
             if k == "CXXForRangeStmt":
